@@ -546,6 +546,12 @@ func (r *Reader) extractTextWithFragments(page *pages.Page) (*text.Extractor, []
 		if err != nil {
 			return nil, nil, fmt.Errorf("failed to decode content stream: %w", err)
 		}
+		// The streams of a /Contents array are divided at token boundaries and need
+		// not end in white space: keep the last token of one stream apart from the
+		// first token of the next.
+		if len(allData) > 0 {
+			allData = append(allData, '\n')
+		}
 		allData = append(allData, data...)
 	}
 
